@@ -18,7 +18,7 @@ from typing import List
 
 from vfw import hs
 from vfw.refsem import cfg, shape
-from vfw.refsem.gdsl import Grammar, Rule, Alt, T, N, L, Term, Plus, Opt, Star
+from vfw.refsem.gdsl import Grammar, Rule, Alt, T, N, L, Term, Plus, Opt, Star, Maybe
 
 PROPERTY = 'C05'
 P = hs.params()
@@ -38,6 +38,12 @@ GRAMMARS = {
     # catalan x labelings
     'ssab': (Grammar([Rule('start', [[N('s')]]), Rule('s', [[N('s'), N('s')], [N('a')], [N('b')]]), Rule('a', [[A]]), Rule('b', [[A]])],
                      declare=['A']), ['A'], 3),
+    # prioritised rules with [..] placeholders (each placeholder expansion carries its own options object) and optional items
+    'optamb': (Grammar([Rule('start', [[N('a')], [N('b')], [N('c')]]), Rule('a', [[Maybe(X), Y]]), Rule('b', [[Y], [X, Y]]), Rule('c', [[Opt(X), Y]])],
+                       declare=['X', 'Y']), ['X', 'Y'], 2),
+    # ties on priority and rule order: only the split point differs
+    'split': (Grammar([Rule('start', [[N('a'), N('b')]]), Rule('a', [[X], [X, X]]), Rule('b', [[X], [X, X]])], declare=['X']), ['X'], 4),
+    'split3': (Grammar([Rule('start', [[N('x'), N('x'), N('x')]]), Rule('x', [[A], [A, A]])], declare=['A']), ['A'], 5),
     # reduce/reduce style choice
     'ef': (Grammar([Rule('start', [[N('e'), A], [N('f'), A]]), Rule('e', [[X]]), Rule('f', [[X]])], declare=['A', 'X']), ['A', 'X'], 2),
 }
@@ -69,7 +75,8 @@ def _ambiguous_inputs(g, names, maxlen, bnf):
 
 def _rule_counts(d, acc):
     if d[0] == 'n':
-        acc[d[1].rule.user if d[1].rule.helper else d[1].rule.name] = acc.get(d[1].rule.name, 0) + (0 if d[1].rule.helper else 1)
+        if not d[1].rule.helper:        # helper rules of the reference's EBNF desugaring carry no priority
+            acc[d[1].rule.name] = acc.get(d[1].rule.name, 0) + 1
         for c in d[2]:
             _rule_counts(c, acc)
     return acc
@@ -235,7 +242,6 @@ def load(vs: List[int], mode: int) -> bool:
 # ---------------------------------------------------------------------------------------------------------------------
 _DET_CHILD = r'''
 import sys, json, itertools
-sys.path.insert(0, %(root)r)
 from vfw.harness import c05
 from vfw import hs
 from vfw.refsem import cfg, shape
@@ -283,7 +289,7 @@ def run_lemma(job):
     root = os.path.dirname(os.path.dirname(os.path.dirname(os.path.abspath(__file__))))
     results = {}
     for s in seeds:
-        env = dict(os.environ, PYTHONHASHSEED=str(s), PYTHONPATH=root)
+        env = dict(os.environ, PYTHONHASHSEED=str(s))       # PYTHONPATH is inherited (vfw + the lark tree under test)
         out = subprocess.run([sys.executable, '-c', _DET_CHILD % {'root': root}], env=env, capture_output=True, text=True, timeout=600)
         if out.returncode != 0:
             return {'status': 'error', 'error': out.stderr[-2000:]}
@@ -321,8 +327,8 @@ def plan(tier, seed):
     for g in GRAMMARS:
         slices.append({'id': 'load:%s' % g, 'func': 'load', 'mode': 'realised', 'params': {'kind': 'load', 'g': g}, 'timeout': 300 if quick else 1800,
                        'bound': {'priority_values': PRIO_VALUES, 'modes': ['normal', 'invert', None]}})
-    lemmas = [{'name': 'det:hashseeds', 'seeds': [0, 1, 2 + (seed % 1000), 12345 + seed] if quick else [0, 1, 2, 3, 7, 99, 2 + (seed % 1000), 12345 + seed],
-               'timeout': 900}]
+    seeds = [0, 1, 2, 3, 4, 5, 100 + (seed % 1000), 12345 + seed] if quick else list(range(24)) + [100 + (seed % 1000), 12345 + seed]
+    lemmas = [{'name': 'det:hashseeds:%d' % k, 'seeds': [seeds[0]] + seeds[1 + k::4], 'timeout': 900} for k in range(4)]
     meta = {
         'rule': 'sym: one path per (input, order relation among the symbolic priority sums the real code compares); load: one path per (priority vector, mode); '
                 'det: one case per (grammar, input)',
